@@ -18,6 +18,16 @@ impl Connection {
     pub closed spec fn budget_ok(&self) -> bool { self.max_packet_length <= alloc_budget() }
     pub closed spec fn ev(&self) -> Seq<Ev> { self.stream.ev@ }
     pub closed spec fn key(&self) -> Option<Seq<u8>> { self.stream.key@ }
+    // operator-controlled configuration (C14, C15), readable from other modules
+    pub closed spec fn spec_secret(&self) -> Option<Seq<u8>> { match self.auth_secret { Some(v) => Some(v@), None => None } }
+    pub closed spec fn spec_max_len(&self) -> i32 { self.max_packet_length }
+    pub closed spec fn spec_expiry(&self) -> u64 { self.auth_cookie_expiry }
+    pub closed spec fn spec_addr(&self) -> SocketAddr { self.client_address }
+    /// a connection on which nothing has happened yet
+    pub closed spec fn fresh(&self) -> bool {
+        self.stream.wf() && self.stream.ev@.len() == 0 && self.stream.key@ is None && self.keep_alive_id is None && self.stream.writes@ == 0
+    }
+    pub closed spec fn ka_period(&self) -> (u64, tokio::time::MissedTickBehavior) { (self.keep_alive_interval.period.secs, self.keep_alive_interval.behavior) }
     pub closed spec fn locale(&self) -> Option<Seq<char>> { opt_str(self.client_locale) }
 }
 
